@@ -545,11 +545,15 @@ class YP(object):
         r = [ V1.get_value() for r in q ]
         assert r == [ yp.atom('tom') ]
         """
-        yield from self.match_dynamic(self.atom(name), args)
+        # resolve the definitions now, when the call is made, not after the dynamic
+        # facts have been enumerated: a script loaded or a function registered while
+        # this call is suspended must not change what it answers
+        function = None
         if name not in self.eval_blacklist:
             function = self.eval_context.get(f'{name}_{len(args)}', self.eval_context.get(f'{name}_n'))
-            if function is not None:
-                yield from function(*args)
+        yield from self.match_dynamic(self.atom(name), args)
+        if function is not None:
+            yield from function(*args)
 
     def evaluate_bounded(self, query, projection_function, recursion_limit=200):
         """Evaluates a query, but limits the recursion depth to recursion_limit. If a query
